@@ -1,21 +1,28 @@
 #!/bin/bash
-# usage: tools/seed_matrix.sh [tier] [seed-id ...]  -- applies each kept seed to /repo, runs the check of its property, reverts
+# usage: tools/seed_matrix.sh [tier] [seed-id ...]
+# Applies each kept seed to a scratch worktree of /repo's HEAD (outside /repo and /verif), runs the
+# check of its property (and of also_checked_by) against that tree, reverts. /repo itself and the
+# committed evidence files are left untouched. The worktree is removed at the end.
 cd /verif
 tier=${1:-quick}; shift
 seeds=${@:-$(ls seeded)}
+WT=${SEED_WT:-/tmp/seedrepo_$$}
+git -C /repo worktree add --detach -f "$WT" HEAD >/dev/null 2>&1 || { echo "cannot create worktree $WT"; exit 2; }
+trap 'git -C /repo worktree remove --force "$WT" >/dev/null 2>&1' EXIT
+export VERIF_REPO="$WT"
 for sd in $seeds; do
   prop=$(python3 -c "import json;print(json.load(open('seeded/$sd/meta.json'))['property'])")
   also=$(python3 -c "import json;print(' '.join(json.load(open('seeded/$sd/meta.json')).get('also_checked_by',[])))")
-  if ! git -C /repo apply --check /verif/seeded/$sd/patch.diff 2>/dev/null; then echo "$sd: PATCH DOES NOT APPLY"; continue; fi
-  git -C /repo apply /verif/seeded/$sd/patch.diff
+  if ! git -C "$WT" apply --check /verif/seeded/$sd/patch.diff 2>/dev/null; then echo "$sd: PATCH DOES NOT APPLY"; continue; fi
+  git -C "$WT" apply /verif/seeded/$sd/patch.diff
   res=""
   for p in $prop $also; do
-    [ -f evidence/$p.json ] && cp evidence/$p.json /tmp/ev_$p.bak
+    [ -f evidence/$p.json ] && cp evidence/$p.json /tmp/ev_$p.$$.bak
     out=$(VERIF_NO_WITNESS=1 bin/check $p $tier 2>&1); r=$?
     n=$(echo "$out" | grep -c "^VIOLATION")
     res="$res $p:exit=$r,violations=$n"
-    [ -f /tmp/ev_$p.bak ] && mv /tmp/ev_$p.bak evidence/$p.json
+    [ -f /tmp/ev_$p.$$.bak ] && mv /tmp/ev_$p.$$.bak evidence/$p.json
   done
-  git -C /repo checkout -- .
+  git -C "$WT" checkout -- . ; git -C "$WT" clean -fdq
   echo "$sd:$res"
 done
